@@ -716,3 +716,101 @@ func b2i(b bool) int {
 	}
 	return 0
 }
+
+// ---- kind 5: the pool maintenance loop on a node without pods -----------------------------------------------
+// input: 5 dual per min max fs nENI (n4 n6)* npass          (interfaces are numbered 1..nENI, all attached, all
+//        addresses valid and idle, record = cloud)
+// output per round: 55 ncalls (kind eni n)* nENI (id n4 d4 n6 d6 gone)*
+
+func evalLoop(in []*big.Int) ([]*big.Int, []*big.Int) {
+	d := hx.NewD(in)
+	d.Int()
+	dual := d.Bool()
+	per, minPool, maxPool, fs := d.Int(), d.Int(), d.Int(), d.Int()
+	ne := d.Int()
+	var lens [][2]int
+	for i := 0; i < ne; i++ {
+		lens = append(lens, [2]int{d.Int(), d.Int()})
+	}
+	npass := d.Int()
+	if d.Bad {
+		return in, nil
+	}
+	var out hx.B
+	run := func(t *testing.T) {
+		node := baseNode(true, dual, false, false, per, per)
+		node.Spec.NodeMetadata = networkv1beta1.NodeMetadata{InstanceID: "i-1", InstanceType: "ecs.x", RegionID: "r", ZoneID: "zone-a"}
+		node.Spec.NodeCap.Adapters = fs + 1
+		node.Spec.Pool = &networkv1beta1.PoolSpec{MinPoolSize: minPool, MaxPoolSize: maxPool}
+		node.Spec.Flavor = []networkv1beta1.Flavor{{NetworkInterfaceType: networkv1beta1.ENITypeSecondary, NetworkInterfaceTrafficMode: networkv1beta1.NetworkInterfaceTrafficModeStandard, Count: fs}}
+		cloud := &fakeCloud{enis: map[int]*cEni{}, faults: map[int][]int{}}
+		node.Status.NetworkInterfaces = map[string]*networkv1beta1.NetworkInterface{}
+		for i, l := range lens {
+			e := &cEni{id: i + 1, status: "InUse"}
+			ni := &networkv1beta1.NetworkInterface{ID: eniID(e.id), Status: "InUse", VSwitchID: "vsw-1", MacAddress: fmt.Sprintf("02:00:00:00:00:%02x", e.id),
+				NetworkInterfaceType: networkv1beta1.ENITypeSecondary, NetworkInterfaceTrafficMode: networkv1beta1.NetworkInterfaceTrafficModeStandard,
+				IPv4: map[string]*networkv1beta1.IP{}, IPv6: map[string]*networkv1beta1.IP{}, IPv4CIDR: "10.0.0.0/8", IPv6CIDR: "fd00::/64"}
+			for k := 0; k < l[0]; k++ {
+				cloud.nextAddr++
+				e.v4 = append(e.v4, cloud.nextAddr)
+				ni.IPv4[ip4(cloud.nextAddr)] = &networkv1beta1.IP{IP: ip4(cloud.nextAddr), IPName: ip4(cloud.nextAddr), Status: networkv1beta1.IPStatusValid, Primary: k == 0}
+			}
+			for k := 0; k < l[1]; k++ {
+				cloud.nextAddr++
+				e.v6 = append(e.v6, cloud.nextAddr)
+				ni.IPv6[ip6(cloud.nextAddr)] = &networkv1beta1.IP{IP: ip6(cloud.nextAddr), IPName: ip6(cloud.nextAddr), Status: networkv1beta1.IPStatusValid}
+			}
+			cloud.enis[e.id] = e
+			node.Status.NetworkInterfaces[ni.ID] = ni
+		}
+		cloud.nextENI = len(lens)
+		rt := &networkv1beta1.NodeRuntime{ObjectMeta: metav1.ObjectMeta{Name: "node-1"}}
+		cl := fake.NewClientBuilder().WithScheme(scheme).WithObjects(node, rt, &corev1.Node{ObjectMeta: metav1.ObjectMeta{Name: "node-1"}}).
+			WithStatusSubresource(&networkv1beta1.Node{}, &networkv1beta1.NodeRuntime{}).
+			WithIndex(&corev1.Pod{}, "spec.nodeName", func(o client.Object) []string { return []string{o.(*corev1.Pod).Spec.NodeName} }).Build()
+		pool, _ := vswitch.NewSwitchPool(100, "10m")
+		rec := ipamnode.VerifNewReconcileNode(cl, cloud, pool, 1*time.Hour, 2*time.Minute)
+		ctx := context.Background()
+		for p := 0; p < npass; p++ {
+			cloud.mu.Lock()
+			cloud.calls = nil
+			cloud.mu.Unlock()
+			_, _ = rec.Reconcile(ctx, reconcile.Request{NamespacedName: k8stypes.NamespacedName{Name: "node-1"}})
+			synctest.Wait()
+			cloud.mu.Lock()
+			out.I(55, len(cloud.calls))
+			for _, c := range cloud.calls {
+				out.I(c[0], c[1], c[2])
+			}
+			cloud.mu.Unlock()
+			cur := &networkv1beta1.Node{}
+			_ = cl.Get(ctx, client.ObjectKey{Name: "node-1"}, cur)
+			var ids []int
+			for id := range cur.Status.NetworkInterfaces {
+				ids = append(ids, eniNum(id))
+			}
+			sort.Ints(ids)
+			out.I(len(ids))
+			for _, id := range ids {
+				e := cur.Status.NetworkInterfaces[eniID(id)]
+				cnt := func(m map[string]*networkv1beta1.IP) (int, int) {
+					v, dl := 0, 0
+					for _, x := range m {
+						if x.Status == networkv1beta1.IPStatusDeleting {
+							dl++
+						} else {
+							v++
+						}
+					}
+					return v, dl
+				}
+				n4, d4 := cnt(e.IPv4)
+				n6, d6 := cnt(e.IPv6)
+				out.I(id, n4, d4, n6, d6).Bool(e.Status != "InUse")
+			}
+			time.Sleep(130 * time.Second)
+		}
+	}
+	historyRunner(run)
+	return in, out.L
+}
